@@ -10,7 +10,7 @@
                                after the store, and the `except` handler decides what is left;
   * `findOrAddCapCore_full`    the refusal leaves the manager of the call (abstract variant);
   * `findOrAddCapLit_full`     the literal variant (store, `del` three times) leaves a manager
-                               with the same CONTENT (`Mgr.Same`: every lookup, sizes, every
+                               with the same CONTENT (`Mgr.SameContent`: every lookup, sizes, every
                                other field; hence the same canonical dump), provided the free
                                number was not a stale key of `_ref`;
   * `findOrAddCapOld_full`     what the un-repaired code leaves, and `capOld_*` a concrete run.
@@ -69,7 +69,7 @@ theorem incref_minFree (u : Int) (m : Mgr) : (incref u m).2.minFree = m.minFree 
   unfold incref
   cases m.ref[u.natAbs]? <;> rfl
 
-theorem incref_err (u : Int) (m : Mgr) (e : Err) (m' : Mgr) (h : incref u m = (.error e, m')) :
+theorem incref_err_key (u : Int) (m : Mgr) (e : Err) (m' : Mgr) (h : incref u m = (.error e, m')) :
     e = .key := by
   unfold incref at h
   cases hr : m.ref[u.natAbs]? with
@@ -108,7 +108,7 @@ theorem increfTwo_ne_runtime (r v w : Int) (m1 : Mgr) :
   obtain ⟨r1, m2⟩ := x
   cases r1 with
   | error e =>
-    have := incref_err v m1 e m2 hx
+    have := incref_err_key v m1 e m2 hx
     subst this
     simp
   | ok a =>
@@ -117,7 +117,7 @@ theorem increfTwo_ne_runtime (r v w : Int) (m1 : Mgr) :
     obtain ⟨r2, m3⟩ := y
     cases r2 with
     | error e =>
-      have := incref_err w m2 e m3 hy
+      have := incref_err_key w m2 e m3 hy
       subst this
       simp
     | ok b => simp
@@ -322,7 +322,7 @@ theorem findOrAddCap_full (cap : Nat) (i v w : Int) (m m' : Mgr)
 
 /-- two managers with the same CONTENT: every lookup in the three dictionaries of nodes, the
 number of nodes, and every other field — what `state` dumps, and everything the model reads -/
-structure Mgr.Same (a b : Mgr) : Prop where
+structure Mgr.SameContent (a b : Mgr) : Prop where
   succ : ∀ k : Nat, a.tbl.succ[k]? = b.tbl.succ[k]?
   pred : ∀ k : List Int, a.pred[k]? = b.pred[k]?
   ref : ∀ k : Nat, a.ref[k]? = b.ref[k]?
@@ -336,12 +336,12 @@ structure Mgr.Same (a b : Mgr) : Prop where
   sched : a.sched = b.sched
   roots : a.roots = b.roots
 
-theorem Mgr.Same.refl (m : Mgr) : Mgr.Same m m :=
+theorem Mgr.SameContent.refl (m : Mgr) : Mgr.SameContent m m :=
   ⟨fun _ => rfl, fun _ => rfl, fun _ => rfl, rfl, rfl, rfl, rfl, rfl, rfl, rfl, rfl, rfl⟩
 
 /-- same content ⇒ same listing of every dictionary ⇒ same canonical dump (the answer of the
 protocol op `state`), same `len` -/
-theorem Mgr.Same.dump {a b : Mgr} (h : Mgr.Same a b) :
+theorem Mgr.SameContent.dump {a b : Mgr} (h : Mgr.SameContent a b) :
     dumpState a = dumpState b ∧ a.len = b.len := by
   have h1 : a.tbl.succ.toList = b.tbl.succ.toList :=
     TreeMap.equiv_iff_toList_eq.mp (TreeMap.Equiv.of_forall_constGet?_eq h.succ)
@@ -359,7 +359,7 @@ theorem Mgr.Same.dump {a b : Mgr} (h : Mgr.Same a b) :
 free number was a key of none of the three dictionaries -/
 theorem undoStore_same (m : Mgr) (t : Nd) (hp : m.pred[t.key]? = none)
     (hs : m.tbl.succ.contains m.minFree = false) (hr : m.ref[m.minFree]? = none) :
-    Mgr.Same (undoStore m (storeNode m t) t) m := by
+    Mgr.SameContent (undoStore m (storeNode m t) t) m := by
   have hs' : m.tbl.succ[m.minFree]? = none := by
     rw [TreeMap.contains_eq_isSome_getElem?] at hs
     cases hh : m.tbl.succ[m.minFree]? with
@@ -396,7 +396,7 @@ before the call (hence the same dump and `len`).  The hypothesis says that `_min
 stale key of `_ref`; it holds whenever the counts are exact (`findOrAddCapLit_full_exact`). -/
 theorem findOrAddCapLit_full (cap i : Nat) (v w : Int) (m m' : Mgr)
     (hr : m.ref[m.minFree]? = none)
-    (h : findOrAddCapLit cap i v w m = (.error .runtime, m')) : Mgr.Same m' m := by
+    (h : findOrAddCapLit cap i v w m = (.error .runtime, m')) : Mgr.SameContent m' m := by
   obtain ⟨t, hp, _, hs, he, _, _⟩ := findOrAddCapWith_full _ cap i v w m m' h
   rw [he]
   exact undoStore_same m t hp hs hr
@@ -404,7 +404,7 @@ theorem findOrAddCapLit_full (cap i : Nat) (v w : Int) (m m' : Mgr)
 theorem findOrAddCapLit_full_exact (cap i : Nat) (v w : Int) (m m' : Mgr) (ext : Nat → Nat)
     (hI : Inv m) (hx : RefExact m ext)
     (h : findOrAddCapLit cap i v w m = (.error .runtime, m')) :
-    Mgr.Same m' m ∧ dumpState m' = dumpState m ∧ m'.len = m.len := by
+    Mgr.SameContent m' m ∧ dumpState m' = dumpState m ∧ m'.len = m.len := by
   have hr : m.ref[m.minFree]? = none := by
     cases hh : m.ref[m.minFree]? with
     | none => rfl
@@ -421,7 +421,7 @@ together, and then the literal one leaves the content of what the abstract one l
 theorem findOrAddCapLit_same (cap i : Nat) (v w : Int) (m : Mgr) (hr : m.ref[m.minFree]? = none) :
     findOrAddCapLit cap i v w m = findOrAddCapCore cap i v w m ∨
     (findOrAddCapCore cap i v w m = (.error .runtime, m) ∧
-      ∃ m', findOrAddCapLit cap i v w m = (.error .runtime, m') ∧ Mgr.Same m' m) := by
+      ∃ m', findOrAddCapLit cap i v w m = (.error .runtime, m') ∧ Mgr.SameContent m' m) := by
   rcases findOrAddCapWith_cases undoStore cap i v w m with ⟨he, _, h3⟩ | ⟨t, hp, _, hs, he, h4, h5⟩
   · left
     rcases findOrAddCapWith_cases (fun m _ _ => m) cap i v w m with ⟨he', _, _⟩ | ⟨_, _, _, _, _, h4, h5⟩
